@@ -96,6 +96,50 @@ pub fn c13(args: &Args, reg: &[TypeEntry], log: &mut Log) {
                 "n_errors": errors.len()}));
         }
     }
+    // mixed entry points: a fixed subset is exported alone (`export()`), another fixed subset with its dependencies
+    // (`export_all()`); the operations run in seeded shuffled orders on 1, 4 and 16 threads. The resulting tree is a
+    // function of the two subsets only.
+    let mut pick = Rng::new(args.seed ^ 0x5EED);
+    for round in 0..4 {
+    let alone: Vec<usize> = (0..reg.len()).filter(|_| pick.chance(1, 6)).collect();
+    let with_deps: Vec<usize> = (0..reg.len()).filter(|_| pick.chance(1, 5)).collect();
+    let mut ops: Vec<(usize, bool)> = alone.iter().map(|&i| (i, false)).chain(with_deps.iter().map(|&i| (i, true))).collect();
+    for threads in [1usize, 4, 16] {
+        for rep in 0..2 {
+            clear_dir(&root);
+            verif::reset_registry();
+            rng.shuffle(&mut ops);
+            let chunks: Vec<Vec<(usize, bool)>> = (0..threads).map(|t| ops.iter().copied().skip(t).step_by(threads).collect()).collect();
+            let barrier = Arc::new(Barrier::new(threads));
+            let errors: Vec<String> = std::thread::scope(|s| {
+                let hs: Vec<_> = chunks
+                    .iter()
+                    .map(|chunk| {
+                        let b = barrier.clone();
+                        s.spawn(move || {
+                            b.wait();
+                            let mut errs = vec![];
+                            for &(i, all) in chunk {
+                                match guarded(if all { reg[i].export_all } else { reg[i].export }) {
+                                    Ok(Ok(())) => {}
+                                    other => errs.push(format!("{}: {other:?}", reg[i].id)),
+                                }
+                            }
+                            errs
+                        })
+                    })
+                    .collect();
+                hs.into_iter().flat_map(|h| h.join().unwrap_or_default()).collect()
+            });
+            let tree = files_only(&snapshot(&root));
+            let file_digests: std::collections::BTreeMap<&String, String> = tree.iter().map(|(p, b)| (p, digest(&String::from_utf8_lossy(b)))).collect();
+            log.emit(json!({"ev": "tree", "monitor": "C13", "phase": format!("mixed{round}"), "threads": threads, "rep": rep, "files": tree.len(),
+                "digest": digest(&tree_json(&tree).to_string()), "file_digests": file_digests, "same_as_first_in_process": true, "differing": [],
+                "alone": alone.len(), "with_dependencies": with_deps.len(),
+                "errors": errors.iter().take(5).collect::<Vec<_>>(), "n_errors": errors.len()}));
+        }
+    }
+    }
     if let Some((d, tree)) = first {
         let shared: usize = tree.values().filter(|b| String::from_utf8_lossy(b).matches("export type ").count() > 1).count();
         let multi_import: usize = tree.values().filter(|b| String::from_utf8_lossy(b).matches("import type ").count() >= 3).count();
